@@ -10,7 +10,7 @@ POSTCONDITION Accepted
 CHECK_DEADLOCK FALSE
 """
 NAMES = {"S1": "AS-S1", "S2": "AS-S2", "A1": "AS65001", "A2": "AS65002", "A3": "AS65003", "R1": "RS-R1", "R2": "RS-R2", "F1": "FLTR-F1",
-         "F2": "FLTR-F2", "SB": "AS-BIG"}
+         "F2": "FLTR-F2", "F3": "FLTR-F3", "SB": "AS-BIG"}
 NBIG = 300            # members of the big as-set: more than any round number a client may batch its look-ups by
 NAMES.update({f"B{k}": f"AS{70000 + k}" for k in range(1, NBIG + 1)})
 UNIVERSE = [[4, l, i] for l in range(8, 12) for i in range(2 ** (l - 8))] + [[6, l, i] for l in range(32, 35) for i in range(2 ** (l - 32))]
@@ -48,7 +48,10 @@ def make_db(b, rng):
     db = {"asSets": {"S1": rng.choice(b["s1"]), "S2": rng.choice(b["s2"])},
           "routes": {a: rng.choice(b["routeChoices"]) for a in ("A1", "A2", "A3")},
           "rtSets": {"R1": rng.choice(b["r1"]), "R2": rng.choice(b["r2"])},
-          "fltSets": {"F1": rng.choice(b["flt"]), "F2": rng.choice(b["flt2"])}}
+          "fltSets": {"F1": rng.choice(b["flt"]), "F2": rng.choice(b["flt2"]), "F3": rng.choice(b["flt"])}}
+    # registries: F3 exists in the server's second registry only; F1 may have a copy there as well, with another
+    # expression (the copy of the first registry is the one that counts)
+    db["_reg2"] = {"F1": rng.choice(b["flt"])} if rng.random() < 0.75 else {}
     return db
 
 def add_big(db, rng):
@@ -72,8 +75,14 @@ def irr_of(db, pad=0):
         irr["routes6"][NAMES[a]] = [prefix(x) for x in atoms if x[0] == 6]
     for n, o in db["rtSets"].items():
         irr["route_sets"][NAMES[n]] = [NAMES[m] for m in o["sets"]] + [prefix(x) for x in o["items"]]
+    irr["filter_sets2"] = {}
     for n, e in db["fltSets"].items():
-        irr["filter_sets"][NAMES[n]] = render(e)
+        if n == "F3":
+            irr["filter_sets2"][NAMES[n]] = render(e)
+        else:
+            irr["filter_sets"][NAMES[n]] = render(e)
+    for n, e in db.get("_reg2", {}).items():
+        irr["filter_sets2"][NAMES[n]] = render(e)
     return irr
 
 def v4_only(e):
@@ -146,6 +155,20 @@ def check_c11(tier):
         if len(groups) % 5 == 2:
             irr["dribble"] = [1, 5, 13, 100][(len(groups) // 5) % 4]   # the answers arrive in pieces of this many bytes
         groups.append({"db": db, "irr": irr, "names": NAMES, "cases": cases})
+    # the ends of the address space, which lie outside the universe the model denotes over: the default routes, host
+    # routes, the last address - as route objects of ASes, reached by AS number, through an as-set, in a route-set, and
+    # combined; what is printed is compared literally
+    edge_irr = {"as_sets": {"AS-EDGE": ["AS65030", "AS65031"]}, "route_sets": {"RS-EDGE": ["0.0.0.0/0", "::/0", "198.51.100.0/24"]}, "filter_sets": {},
+                "routes4": {"AS65030": ["0.0.0.0/0", "192.0.2.0/24"], "AS65031": ["255.255.255.255/32"]},
+                "routes6": {"AS65030": ["::/0"], "AS65031": ["ffff:ffff:ffff:ffff:ffff:ffff:ffff:ffff/128", "2001:db8:ffff::/48"]},
+                "errors": {}, "empty_as_c": False, "pad": 0}
+    a30 = ["0.0.0.0/0", "192.0.2.0/24", "::/0"]; a31 = ["255.255.255.255/32", "ffff:ffff:ffff:ffff:ffff:ffff:ffff:ffff/128", "2001:db8:ffff::/48"]
+    rs = ["0.0.0.0/0", "::/0", "198.51.100.0/24"]
+    edge = [("AS65030", a30), ("AS65031", a31), ("AS-EDGE", a30 + a31), ("RS-EDGE", rs), ("AS-EDGE AND RS-EDGE", ["0.0.0.0/0", "::/0"]),
+            ("AS65031 OR RS-EDGE", a31 + rs)]
+    # (no AND NOT here: with IPv6 prefixes on the left the complement runs into the recorded finding)
+    groups.append({"db": {"asSets": {}, "routes": {}, "rtSets": {}, "fltSets": {}}, "irr": edge_irr, "names": NAMES,
+                   "cases": [{"case": f"edge{k}", "expr": {"op": "lit", "atoms": [], "rng": [0, 0]}, "expr_str": x, "expect_ranges": sorted(w)} for k, (x, w) in enumerate(edge)]})
     gpath = os.path.join(wd, "groups.ndjson")
     with open(gpath, "w") as f:
         for g in groups:
